@@ -299,6 +299,10 @@ def encoding(
             logger.debug("gamma %s", gamma)
             logger.debug("vSums %s", vSums[index])
             logger.debug("fSums %s", fSums[index])
+        if vSums[index] and not fSums[index]:
+            # no world falsifies this conditional: every ranking accepts it, so it
+            # puts no constraint on the parameters (same rule as in c-inference)
+            continue
         mv, mf = freshVars(index)
         vMin = minima_encoding(mv, vSums[index])
         fMin = minima_encoding(mf, fSums[index])
